@@ -7,4 +7,6 @@ cd /verif/sim && cargo build --release --offline
 for d in /verif/c17 /verif/c18; do
   if [ -x $d/setup.sh ]; then $d/setup.sh; fi
 done
+# determinism proof (light): per-run log hashes with 16, 1, 16 and 5 workers must agree
+/verif/selftest_determinism.sh 300
 echo "setup ok"
